@@ -7,7 +7,7 @@ func init() {
 }
 
 // shapes without function-less frames (entry identity = function name)
-var vC04Shapes = []int{6, 5, 1, 0, 2, 3, 7, 8, 9}
+var vC04Shapes = []int{6, 1, 5, 0, 2, 3, 7, 8, 9}
 
 // order used by the trimming check (C05)
 var vC05Shapes = []int{6, 1, 5, 0, 2, 3, 7, 8, 9}
@@ -46,6 +46,7 @@ func VerifC04TextItems() {
 	type ref struct{ flat, flatDiv, cum, cumDiv int64 }
 	refs := map[int]*ref{}
 	edge := map[[2]int]int64{}
+	edgeLive := map[[2]int]bool{} // the adjacency occurs in a sample that counts (non-zero value or divisor)
 	var total, totalDiv int64
 	for s := range shape {
 		w := vp.p.Sample[s].Value[idx]
@@ -70,6 +71,7 @@ func VerifC04TextItems() {
 			if j > 0 && ids[j-1] != f && !seenEdge[[2]int{ids[j-1], f}] {
 				seenEdge[[2]int{ids[j-1], f}] = true
 				edge[[2]int{ids[j-1], f}] += w
+				edgeLive[[2]int{ids[j-1], f}] = vOr(edgeLive[[2]int{ids[j-1], f}], vOr(w != 0, d != 0))
 			}
 		}
 		if len(ids) > 0 {
@@ -116,6 +118,24 @@ func VerifC04TextItems() {
 		if !found[f] {
 			vAssert(vAnd(r.flat == 0, r.cum == 0), "C04.node.missing: an entry with non-zero flat or cum is missing from the graph")
 		}
+	}
+	// every caller/callee adjacency of a sample is an edge of the graph
+	for ab := range edge {
+		if !found[ab[0]] || !found[ab[1]] {
+			continue
+		}
+		has := false
+		for _, n := range g.Nodes {
+			if byName[n.Info.Name] != ab[0] {
+				continue
+			}
+			for dst := range n.Out {
+				if byName[dst.Info.Name] == ab[1] {
+					has = true
+				}
+			}
+		}
+		vAssert(vOr(has, !edgeLive[ab]), "C04.edge.missing: two entries are adjacent in a sample (with a non-zero value) but the graph has no edge between them")
 	}
 
 	// the same numbers in the text report items
